@@ -106,7 +106,7 @@ sym_int.from_bytes = _int_from_bytes
 
 def sym_isinstance(o, c):
     cs = c if _real_isinstance(c, tuple) else (c,)
-    cs = tuple(_real_int if x is sym_int else x for x in cs)
+    cs = tuple(_real_int if x is sym_int else (bytes if x is sym_bytes else x) for x in cs)
     if _real_isinstance(o, SymInt) and _real_int in cs:
         return True
     if _real_isinstance(o, SymBool) and (bool in cs or _real_int in cs):
@@ -317,7 +317,60 @@ class _OperatorShim:
         return _op.index(x)
 
 
+class _BytesMeta(type):
+    def __instancecheck__(cls, o):
+        return isinstance(o, (bytes, SymBytes))
+
+
+class sym_bytes(metaclass=_BytesMeta):
+    """`bytes` as the library sees it: real bytes for concrete arguments, SymBytes when a proxy is involved"""
+    def __new__(cls, *a, **k):
+        if a and isinstance(a[0], SymBytes):
+            return a[0]
+        if a and isinstance(a[0], (list, tuple)) and any(isinstance(x, SymInt) for x in a[0]):
+            return SymBytes([x.t if isinstance(x, SymInt) else x for x in a[0]])
+        if a and isinstance(a[0], SymInt):
+            raise EngineUnsupported("bytes(n) with a symbolic length")
+        return bytes(*a, **k)
+
+    @staticmethod
+    def fromhex(h):
+        if isinstance(h, SymHex):
+            return h.b
+        if isinstance(h, OddHex):
+            raise ValueError("non-hexadecimal number found in fromhex() arg")
+        return bytes.fromhex(h)
+
+
+def _identity_map():
+    import operator, os as _os, math
+    m = {id(operator.index): _OperatorShim.index, id(binascii.hexlify): sym_hexlify, id(binascii.unhexlify): sym_unhexlify,
+         id(binascii.b2a_hex): sym_hexlify, id(binascii.a2b_hex): sym_unhexlify, id(hashlib.sha256): sym_sha256,
+         id(_os.urandom): _OsShim.urandom, id(_json.dumps): _JsonShim.dumps, id(_json.loads): _JsonShim.loads,
+         id(binascii): _BinShim, id(hashlib): _HashlibShim, id(_json): _JsonShim, id(_os): _OsShim(), id(operator): _OperatorShim(),
+         id(_real_int): sym_int, id(_real_isinstance): sym_isinstance, id(_real_pow): sym_pow, id(bytes): sym_bytes}
+    try:
+        from cryptography.hazmat.primitives.kdf import hkdf as _h
+        m[id(_h)] = _HkdfShim
+        m[id(_h.HKDF)] = HkdfStub
+    except Exception:
+        pass
+    return m
+
+
 def instrument(mod):
+    # identity-based rebinding: whatever NAME the module gave a C-level helper (`from operator import index as _index`,
+    # `import binascii as ba`, ...), the proxy-aware model replaces it
+    idm = _identity_map()
+    for name, val in list(vars(mod).items()):
+        if name.startswith("__"):
+            continue
+        try:
+            if id(val) in idm:
+                setattr(mod, name, idm[id(val)])
+        except Exception:
+            pass
+    mod.bytes = sym_bytes
     mod.__sym_mod__ = sym_mod
     mod.__sym_join__ = sym_join
     mod.int = sym_int
